@@ -123,6 +123,18 @@ CHECKS = {
             "same with offending elements unchanged in place; a required field is never silently excluded; other fields untouched.",
             "Trusted: an element offends iff its type applied alone rejects it under the same options (measured on the real code).",
             "DESIGN.md §3 C11"),
+    "C12": ("bounded-exhaustive enumeration of (source value, target type) x the four preference-flag combinations with one "
+            "oracle per clause of the statement",
+            "Every address-independent atom of the value alphabet plus 39 boundary values x 33 plain targets (builtin, "
+            "standard library, Enum, user subclasses), Tuple[int] / Tuple[int,int] / Tuple[int,str] with 0..n+2 items, and "
+            "data classes of both bases (flags applied through __from__ and through type_transform): (i) success under any "
+            "flag set implies success without flags with an equal value of the same type; (ii) no_data_loss: exact integer "
+            "value, unambiguous booleans only, no multi-element collection to a non-string scalar, strict decoding, no timed "
+            "value to date, extra tuple items / unknown keys rejected; (iii) no_explicit_cast: source group == target group "
+            "apart from the documented exceptions.",
+            "Trusted: the reference notions exact_value / unambiguous_bool / group / has_time_part in utmc/props/c12.py, "
+            "written from docs/references/options.md.",
+            "DESIGN.md §3 C12"),
     "C16": ("explicit-state exploration (DFS with state dedup) of register/resolve histories on the real "
             "TypeRegistry against a cache-free reference model",
             "All histories of register/resolve operations up to depth 4 (quick) / 5 (thorough) over a menu of "
